@@ -72,12 +72,20 @@ def guarded_process(buf, piece, delivered, cpu_limit=5.0):
             return
         delivered.append(msg)
 
+    import time
+
     old = signal.signal(signal.SIGVTALRM, _vt_handler)
     signal.setitimer(signal.ITIMER_VIRTUAL, cpu_limit)
+    t0 = time.process_time()
     try:
         buf.append(piece)
         # the unguarded method: this function is the watchdog here (mc.core.guard wraps Buffer.process process-wide)
         getattr(type(buf), "_mc_orig_process", type(buf).process)(buf, cb)
+        used = time.process_time() - t0
+        if used > cpu_limit:
+            # the alarm fired inside C code (a regular-expression match, a parser call) and the exception it raised
+            # was swallowed by an "except Exception" of the library: the call returned, but only after the limit
+            return Hang("Buffer.process returned only after %.1f s of CPU (limit %.1f s)" % (used, cpu_limit))
         return None
     except (Livelock, Hang) as e:
         return e
